@@ -42,10 +42,13 @@ META = {
 
 # static part (independent of /repo): models, word lemmas, the parametric exactness theorems
 STATIC = ["C03/LIR.v", "C03/VSL.v", "C03/ArithSpec.v", "C03/WordArith.v", "C03/TypeLemmas.v", "C03/ArithModel.v",
-          "C03/TieBase.v", "C03/VSubst.v", "C03/TieModels.v", "C03/LegacyExact.v", "C03/VenomExact.v"]
+          "C03/TieBase.v", "C03/VSubst.v", "C03/TieModels.v", "C03/LegacyExact.v", "C03/VenomExact.v",
+          "C03/ConvSpec.v", "C03/ConvModel.v", "C03/ConvExact.v", "C03/VConvExact.v", "C03/ConvTie.v"]
 # regenerated templates + the ties + the property theorems about the REAL templates
 LEGACY = ["C03/GenLegacy.v", "C03/TieLegacy.v", "C03/PropsLegacy.v"]
 VENOM = ["C03/GenVenom.v", "C03/TieVenom.v", "C03/PropsVenom.v"]
+CONVL = ["C03/GenConvLegacy.v", "C03/TieConvLegacy.v", "C03/PropsConvLegacy.v"]
+CONVV = ["C03/GenConvVenom.v", "C03/TieConvVenom.v", "C03/PropsConvVenom.v"]
 
 OPSYM = {"AAdd": "+", "ASub": "-", "AMul": "*", "ADiv": "//", "AMod": "%", "AUSub": "-"}
 
@@ -322,6 +325,214 @@ def glue_differential(ctx, tys, cfgs, size, with_lits=True):
     return n_eval, failing
 
 
+# ------------------------------------------------------------------ (3) conversions
+CONV_PRELUDE = COQ_PRELUDE + """From Verif Require Import C03.ConvSpec.
+Definition cspec_row (a b : cty) (G : list Z) : list Z := map (fun v => oc (c_enc_out b (conv_spec a b v))) G.
+Definition clev_row (a : cty) (t : lir) (G : list Z) : list Z :=
+  map (fun v => oc (leval [("x"%string, c_enc a v)] t)) G.
+Definition cvev_row (a : cty) (t : vtemplate) (G : list Z) : list Z :=
+  map (fun v => oc (vrun [("%1"%string, c_enc a v)] t)) G.
+"""
+
+
+def c_grid(key, rnd, size=None):
+    """boundary values of a word type; key as in c03_export.conv_types"""
+    if key[0] == "num":
+        return type_grid(key[1:], rnd, size)
+    if key[0] == "bool":
+        return [0, 1]
+    if key[0] == "addr":
+        return [0, 1, 2**159, 2**160 - 1, rnd.randrange(2**160)]
+    if key[0] == "bytes":
+        b = 8 * key[1]
+        vals = {0, 1, 2**b - 1, 2**(b - 1), 2**(b - 1) - 1, 2**(b - 1) + 1, 0x80, 0x7F, 0xFF, rnd.randrange(2**b)}
+        if key[1] >= 2:
+            vals |= {1 << 8, 1 << (b - 8), (2**b - 1) ^ 0xFF, 0xFF << (b - 8), 0x100 - 1}
+        if key[1] >= 21:
+            vals |= {1 << 160, (1 << 160) - 1, 1 << 167, (1 << 168) - 1}
+        return sorted(v for v in vals if 0 <= v < 2**b)
+    if key[0] == "flag":
+        n = key[1]
+        return sorted({0, 1, 2**n - 1, 2**(n - 1), rnd.randrange(2**n)})
+    raise ValueError(key)
+
+
+def c_enc(key, v):
+    if key[0] == "bytes":
+        return v << (8 * (32 - key[1]))
+    return v % (2**256)
+
+
+def c_src_name(key):
+    return {"num": lambda: tyname(key[1:]), "bool": lambda: "bool", "addr": lambda: "address",
+            "bytes": lambda: f"bytes{key[1]}", "flag": lambda: f"F{key[1]}"}[key[0]]()
+
+
+def convert_differential(ctx, templates, kind, sample=None, force_idx=()):
+    """exported convert templates: real back end on EVM vs Coq evaluator vs conv_spec."""
+    rnd = ctx.rng(kind + "conv")
+    force_idx = set(force_idx)
+    idx = [j for j in range(len(templates)) if j in force_idx or sample is None or rnd.random() < sample]
+    grids, gnames = {}, {}
+    imports = CONV_PRELUDE
+    for j in idx:
+        ki = templates[j][2]
+        if ki not in grids:
+            grids[ki] = c_grid(ki, rnd, 9)
+            gnames[ki] = f"CG{len(gnames)}"
+            imports += f"Definition {gnames[ki]} := {zlist(grids[ki])}.\n"
+    chain = Chain("cancun")
+    rows, meta = [], []
+    n_eval = 0
+    for j in idx:
+        ci, co, ki, ko, n = templates[j]
+        g = grids[ki]
+        cs = [(c_enc(ki, v), 0) for v in g]
+        code = ir_snippet_code(n) if kind == "legacy" else venom_snippet_code(n)
+        obs = run_code(chain, code, cs)
+        n_eval += len(cs)
+        rows.append({"spec": f"cspec_row {ci} {co} {gnames[ki]}",
+                     "model": (f"clev_row {ci} {X.lir_term(n)} {gnames[ki]}" if kind == "legacy"
+                               else f"cvev_row {ci} {X.vtemplate_term(*n)} {gnames[ki]}"), "obs": obs})
+        meta.append((ki, ko, n, g, obs))
+    res = compare_rows(imports, rows, "c03conv" + kind, shard=150)
+    failing, bad_model = [], []
+    for (ki, ko, n, g, obs), (sm, mm) in zip(meta, res):
+        for i, e, _ in sm[:1]:
+            failing.append((ki, ko, g[i] if 0 <= i < len(g) else "?", e, obs[i] if 0 <= i < len(obs) else None, n))
+        for i, e, _ in mm[:1]:
+            bad_model.append((ki, ko, g[i] if 0 <= i < len(g) else "?", e, obs[i] if 0 <= i < len(obs) else None))
+    ctx.corr[kind + "_convert_cases"] = n_eval
+    ctx.corr[kind + "_convert_templates_run"] = len(idx)
+    return n_eval, failing, bad_model
+
+
+def mismatching_converts(kind):
+    gen, fn, tbl = ("GenConvLegacy", "ctie_one", "legacy_converts") if kind == "legacy" else \
+        ("GenConvVenom", "vctie_one", "venom_converts")
+    try:
+        out = coqrun.eval_zlists(f"From Verif Require Import C03.TieModels C03.ConvTie C03.{gen}.\n",
+                                 [f"bad_idx {fn} 0 {tbl}"], "c03badc" + kind, timeout=300)
+        return out[0]
+    except Exception:  # noqa
+        return None
+
+
+def flag_decl(n):
+    return f"flag F{n}:\n" + "\n".join(f"    m{i}" for i in range(n)) + "\n"
+
+
+def convert_glue(ctx, pairs_by_in, cterm, cfgs):
+    """convert() probes through the full compiler vs conv_spec.  pairs_by_in: {key_in: [key_out, ...]}"""
+    rnd = ctx.rng("convglue")
+    imports = CONV_PRELUDE
+    grids, gnames = {}, {}
+    for ki in pairs_by_in:
+        grids[ki] = c_grid(ki, rnd, 9)
+        gnames[ki] = f"CG{len(gnames)}"
+        imports += f"Definition {gnames[ki]} := {zlist(grids[ki])}.\n"
+    groups = {}
+    n_eval = 0
+    for cfg in cfgs:
+        chain = Chain(cfg.evm)
+        for ki, outs in pairs_by_in.items():
+            flags = sorted({k[1] for k in [ki] + outs if k[0] == "flag"})
+            src = "".join(flag_decl(n) + "\n" for n in flags)
+            for j, ko in enumerate(outs):
+                src += f"@external\ndef c{j}(x: {c_src_name(ki)}) -> {c_src_name(ko)}:\n    return convert(x, {c_src_name(ko)})\n\n"
+            try:
+                out = compile_src(src, cfg, formats=("bytecode", "method_identifiers"))
+            except Exception as e:  # noqa
+                ctx.violation("correspondence-broken", f"convert probe does not compile under {cfg.name}",
+                              {"source": src, "config": cfg.name, "error": f"{type(e).__name__}: {e}"[:600]})
+                continue
+            addr = chain.deploy(bytes.fromhex(out["bytecode"][2:]))
+            sels = {sig.split("(")[0]: int(h, 16).to_bytes(4, "big") for sig, h in out["method_identifiers"].items()}
+            for j, ko in enumerate(outs):
+                datas = [sels[f"c{j}"] + word(c_enc(ki, v)) for v in grids[ki]]
+                obs = [call_word(chain, addr, dt) for dt in datas]
+                n_eval += len(obs)
+                g = groups.setdefault((ki, ko), {"spec": f"cspec_row {cterm[ki]} {cterm[ko]} {gnames[ki]}", "runs": []})
+                g["runs"].append((cfg, obs, datas, src, j))
+    keys = list(groups)
+    rows = [{"spec": groups[k]["spec"], "multi": [r[1] for r in groups[k]["runs"]]} for k in keys]
+    res = compare_rows(imports, rows, "c03convglue", shard=80)
+    failing = []
+    for (ki, ko), (sm, _) in zip(keys, res):
+        seen = set()
+        for i, e, m in sm:
+            if m in seen:
+                continue
+            seen.add(m)
+            cfg, obs, datas, src, j = groups[(ki, ko)]["runs"][m]
+            g = grids[ki]
+            failing.append({"convert": f"{c_src_name(ki)} -> {c_src_name(ko)}", "function": f"c{j}", "config": cfg.name,
+                            "value": str(g[i]) if 0 <= i < len(g) else "?",
+                            "expected": "revert" if e == -1 else hex(e),
+                            "observed": "revert" if obs[i] == -1 else hex(obs[i]),
+                            "calldata": datas[i].hex(), "source": src})
+    ctx.corr["convert_glue_cases"] = ctx.corr.get("convert_glue_cases", 0) + n_eval
+    ctx.corr["convert_glue_pairs"] = len(keys)
+    return n_eval, failing
+
+
+def choose_convert_pairs(ctx, allowed, tier):
+    """{key_in: [key_out...]} : boundary in-types x a seeded sample of allowed out-types"""
+    rnd = ctx.rng("convpairs")
+    by_in = {}
+    for ki, ko in allowed:
+        if ki != ko:   # same-type convert of a variable is rejected by the type checker
+            by_in.setdefault(ki, []).append(ko)
+    N = lambda k, s: ("num", k, s, False)  # noqa: E731
+    must_in = [N(32, True), N(32, False), N(16, True), N(1, False), N(1, True), ("num", 21, True, True), ("bytes", 32),
+               ("bytes", 1), ("bytes", 20), ("addr",), ("bool",), ("flag", 3)]
+    ins = must_in + (rnd.sample([k for k in by_in if k not in must_in], 3 if tier == "quick" else 25))
+    must_out = [N(1, True), N(1, False), N(32, True), N(32, False), N(16, True), ("num", 21, True, True), ("bool",),
+                ("addr",), ("bytes", 32), ("bytes", 1), ("flag", 3)]
+    out = {}
+    for ki in ins:
+        outs = [ko for ko in must_out if ko in by_in.get(ki, []) and not (ko[0] == "flag" and ko[1] > 3)]
+        rest = [ko for ko in by_in.get(ki, []) if ko not in outs and not (ko[0] == "flag" and ko[1] > 3)]
+        outs += rnd.sample(rest, min(len(rest), 3 if tier == "quick" else 10))
+        if outs:
+            out[ki] = outs
+    return out
+
+
+def venom_extra_conversions(ctx, extras):
+    """Pairs the Venom convert lowering accepts although the conversion rules (and the legacy pipeline) reject
+    them.  Confirm on the real compiler with a truncation witness and report it as a failing input."""
+    if not extras:
+        return False
+    ctx.extra["venom_convert_extra_pairs"] = len(extras)
+    src = flag_decl(40) + "\n@external\ndef f(x: F40) -> bytes4:\n    return convert(x, bytes4)\n"
+    cfg = Config(True, "gas", "prague")
+    try:
+        out = compile_src(src, cfg, formats=("bytecode", "method_identifiers"))
+    except Exception:  # noqa
+        return False     # rejected at source level: nothing reachable
+    chain = Chain(cfg.evm)
+    addr = chain.deploy(bytes.fromhex(out["bytecode"][2:]))
+    sel = int(list(out["method_identifiers"].values())[0], 16).to_bytes(4, "big")
+    got = call_word(chain, addr, sel + word(2**39))
+    try:
+        compile_src(src, Config(False, "gas", "prague"), formats=("bytecode",))
+        legacy = "compiles"
+    except Exception as e:  # noqa
+        legacy = f"rejected: {type(e).__name__}"
+    if got != -1:
+        ctx.violation(
+            "failing-input", "venom pipeline accepts convert(flag, bytes4) and silently truncates",
+            {"source": src, "config": cfg.name, "call": "f(2**39)  (flag member m39)", "calldata": (sel + word(2**39)).hex(),
+             "expected": "compile-time TypeMismatch (as in the legacy pipeline) or revert: the value does not fit in 4 bytes",
+             "observed": hex(got), "legacy_pipeline": legacy,
+             "extra_pairs_accepted_by_venom_lowering": len(extras),
+             "examples": sorted({f"{c_src_name(x[2])}->{c_src_name(x[3])}" for x in extras})[:40]},
+            key="venom-convert-accepts:flag->bytes4")
+        return True
+    return False
+
+
 # ------------------------------------------------------------------ main
 def choose_types(ctx, all_tys):
     if ctx.tier == "thorough":
@@ -354,27 +565,44 @@ def run(ctx):
         (COQ / "C03" / "GenVenom.v").write_text(text)
     except Exception as e:  # noqa
         gen_err = (gen_err or "") + f" venom export: {type(e).__name__}: {e}"
+    lconv, vconv, vextra = [], [], []
+    try:
+        text, lconv, _ = X.gen_convert("legacy")
+        (COQ / "C03" / "GenConvLegacy.v").write_text(text)
+        allowed = {(x[2], x[3]) for x in lconv}
+        text, vconv, vextra = X.gen_convert("venom", restrict_to=allowed)
+        (COQ / "C03" / "GenConvVenom.v").write_text(text)
+    except Exception as e:  # noqa
+        gen_err = (gen_err or "") + f" convert export: {type(e).__name__}: {e}"
     ctx.extra["family_size"] = {"legacy_templates": len(ltempl), "venom_templates": len(vtempl), "numeric_types": 65,
-                                "legacy_clamps": 65, "venom_clamps": 65}
+                                "legacy_clamps": 65, "venom_clamps": 65,
+                                "legacy_converts": len(lconv), "venom_converts": len(vconv), "word_types": 103}
 
     # ---- proofs: static part, then the legacy and venom chains concurrently (content-keyed .vo reuse)
     b0 = ctx.coq_build_cached(STATIC)
     res = {"legacy": {"ok": False, "file": "C03/GenLegacy.v", "failed_lemma": None, "out": gen_err or ""},
-           "venom": {"ok": False, "file": "C03/GenVenom.v", "failed_lemma": None, "out": gen_err or ""}}
+           "venom": {"ok": False, "file": "C03/GenVenom.v", "failed_lemma": None, "out": gen_err or ""},
+           "convl": {"ok": False, "file": "C03/GenConvLegacy.v", "failed_lemma": None, "out": gen_err or ""},
+           "convv": {"ok": False, "file": "C03/GenConvVenom.v", "failed_lemma": None, "out": gen_err or ""}}
     if b0["ok"]:
         ths = []
         if ltempl:
             ths.append(threading.Thread(target=build_chain, args=(ctx, LEGACY, STATIC, res, "legacy")))
         if vtempl:
             ths.append(threading.Thread(target=build_chain, args=(ctx, VENOM, STATIC, res, "venom")))
+        if lconv:
+            ths.append(threading.Thread(target=build_chain, args=(ctx, CONVL, STATIC, res, "convl")))
+        if vconv:
+            ths.append(threading.Thread(target=build_chain, args=(ctx, CONVV, STATIC, res, "convv")))
         for t in ths:
             t.start()
         for t in ths:
             t.join()
-    bl, bv = res["legacy"], res["venom"]
-    ctx.log(f"coq done {time.time()-t0:.0f}s static={b0['ok']} legacy={bl['ok']} venom={bv['ok']}")
-    if bl["ok"] and bv["ok"]:
-        ctx.extra["syntactic_matches"] = len(ltempl) + len(vtempl) + 130
+    bl, bv, bcl, bcv = res["legacy"], res["venom"], res["convl"], res["convv"]
+    ctx.log(f"coq done {time.time()-t0:.0f}s static={b0['ok']} legacy={bl['ok']} venom={bv['ok']} "
+            f"convert-legacy={bcl['ok']} convert-venom={bcv['ok']}")
+    if bl["ok"] and bv["ok"] and bcl["ok"] and bcv["ok"]:
+        ctx.extra["syntactic_matches"] = len(ltempl) + len(vtempl) + 130 + len(lconv) + len(vconv)
 
     # ---- correspondence / search
     found = False
@@ -422,6 +650,53 @@ def run(ctx):
                               {"op": op, "type": tyname(ty), "shape": shape, "x": str(c[0]), "y": str(c[1]), "coq": str(l), "evm": str(g)})
     ctx.log(f"template differential done {time.time()-t0:.0f}s")
 
+    # ---- conversions: template differential (+ Search), glue probes, venom-only pairs
+    for kind, templ, b in (("legacy", lconv, bcl), ("venom", vconv, bcv)):
+        if not templ or not b0["ok"]:
+            continue
+        if b["ok"]:
+            frac, force = (0.02 if ctx.tier == "quick" else 0.15), ()
+        else:
+            bad = mismatching_converts(kind)
+            ctx.log(f"search convert {kind}: {None if bad is None else len(bad)} templates differ from the model")
+            if bad is None:
+                frac, force = 0.1, ()
+            else:
+                frac, force = 0.02, bad[::max(1, len(bad) // 400)]
+        n, failing, bad_model = convert_differential(ctx, templ, kind, frac, force)
+        total += n
+        for ki, ko, v, e, g, node in failing[:5]:
+            found = True
+            tstr = str(node) if kind == "legacy" else "; ".join(str(i).strip() for i in node[0]) + f" -> {node[1]}"
+            ctx.violation(
+                "failing-input", f"{kind} convert template {c_src_name(ki)} -> {c_src_name(ko)} is not exact-or-revert",
+                {"generator": ("vyper.builtins._convert.convert" if kind == "legacy" else "vyper.codegen_venom.builtins.convert.lower_convert")
+                              + f" on a symbolic operand of type {c_src_name(ki)}, target {c_src_name(ko)}",
+                 "template": " ".join(tstr.split()), "value": str(v), "input_word": hex(c_enc(ki, v)) if isinstance(v, int) else "?",
+                 "expected": "revert" if e == -1 else hex(e),
+                 "observed_on_evm": "revert" if g == -1 else (hex(g) if g is not None else "?"),
+                 "how": "template compiled by the real back end + assembler, executed on pyrevm"},
+                key=f"{kind}-convert:{c_src_name(ki)}->{c_src_name(ko)}")
+        for ki, ko, v, l, g in bad_model[:5]:
+            if not found:
+                ctx.violation("correspondence-broken", f"Coq evaluator disagrees with the real back end + EVM on an exported {kind} convert template",
+                              {"convert": f"{c_src_name(ki)} -> {c_src_name(ko)}", "value": str(v), "coq": str(l), "evm": str(g)})
+    if lconv:
+        cterm = {}
+        for ci, co, ki, ko, _ in lconv:
+            cterm[ki] = ci
+            cterm[ko] = co
+        pairs_by_in = choose_convert_pairs(ctx, [(x[2], x[3]) for x in lconv], ctx.tier)
+        n, cfail = convert_glue(ctx, pairs_by_in, cterm, quick_glue_configs() if ctx.tier == "quick" else configs("quick"))
+        total += n
+        for f in cfail[:8]:
+            found = True
+            ctx.violation("failing-input", f"convert {f['convert']} under {f['config']} is not exact-or-revert", f,
+                          key=f"convert-glue:{f['convert']}:{f['config']}")
+    if venom_extra_conversions(ctx, vextra):
+        found = True
+    ctx.log(f"convert differentials done {time.time()-t0:.0f}s")
+
     if ctx.tier == "quick":
         n, gfail = glue_differential(ctx, tys, quick_glue_configs(), 9)
     else:
@@ -441,7 +716,7 @@ def run(ctx):
     # ---- verdicts for broken proofs / ties
     if gen_err and not found:
         ctx.violation("translator-rejected", "template export failed: " + gen_err, {"error": gen_err})
-    for b, what in ((b0, "static"), (bl, "legacy"), (bv, "venom")):
+    for b, what in ((b0, "static"), (bl, "legacy"), (bv, "venom"), (bcl, "convert-legacy"), (bcv, "convert-venom")):
         if not b["ok"] and not found and not (gen_err and what != "static"):
             ctx.violation("theorem-broken", f"{b.get('failed_lemma')} in {b.get('file')} ({what})",
                           {"theorem": b.get("failed_lemma"), "file": b.get("file"), "coq_output": (b.get("out") or "")[-1500:]})
